@@ -105,3 +105,103 @@ c19_memr(File, T, R) :-
     ->  R = same
     ;   R = differ(X, Y, E)
     ).
+
+% ---------------------------------------------------------------------------
+% large payloads (files longer than the reader's 8 KiB chunk)
+
+% c19_bigwrite(File, Writer, Full): writes the characters of Full with
+% put_char/2 (one call per character) or with one format/3 call.
+c19_bigwrite(File, pc, Full) :-
+    open(File, write, S, []), c19_putall(Full, S), close(S).
+c19_bigwrite(File, fmt, Full) :-
+    open(File, write, S, []), format(S, "~s", [Full]), close(S).
+
+c19_putall([], _).
+c19_putall([C|Cs], S) :- put_char(S, C), c19_putall(Cs, S).
+
+% c19_big(File, Full, Readers, Results): Full is the character list the
+% explorer wrote. Every reader consumes the whole file, comparing what it gets
+% with Full as it goes (so a runaway reader stops at the first difference).
+% Result r(Reader, Cmp, AtEnd, Pos) with Cmp = eq(N) (all N characters equal and
+% then end of file) | short(I) (end of file after I characters, more expected)
+% | diff(I, Got) (different / additional data at index I) | error(F).
+c19_big(_, _, [], []).
+c19_big(File, Full, [Rd|Rds], [r(Rd, Cmp, AE, Pos)|Rs]) :-
+    open(File, read, S, [eof_action(eof_code), reposition(true)]),
+    catch(c19_bigread(Rd, S, Full, Cmp), error(E, _), Cmp = error(E)),
+    ( catch(at_end_of_stream(S), _, fail) -> AE = true ; AE = false ),
+    ( catch(stream_property(S, position(position_and_lines_read(Pos, _))), _, fail) -> true ; Pos = none ),
+    close(S),
+    c19_big(File, Full, Rds, Rs).
+
+c19_bigread(gc, S, Full, R) :- c19_loop_gc(S, Full, 0, R).
+c19_bigread(pgc, S, Full, R) :- c19_loop_pgc(S, Full, 0, R).
+c19_bigread(gd, S, Full, R) :- c19_loop_gd(S, Full, 0, R).
+c19_bigread(pgd, S, Full, R) :- c19_loop_pgd(S, Full, 0, R).
+c19_bigread(gn(K), S, Full, R) :- c19_loop_gn(S, K, Full, 0, R).
+c19_bigread(pos(K), S, Full, R) :- c19_take(K, S, Full, 0, R).
+c19_bigread(npos(K), S, Full, R) :-
+    get_n_chars(S, K, Cs), c19_prefix(Cs, Full, 0, I, _, Ok),
+    ( Ok == true -> R = took(I) ; R = Ok ).
+c19_bigread(rt, S, Full, R) :-
+    read_term(S, T, []),
+    (   atom(T) -> atom_chars(T, Cs), c19_prefix(Cs, Full, 0, I, Rest, Ok),
+        (   Ok == true -> ( Rest == [] -> R0 = eq(I) ; R0 = short(I) ) ; R0 = Ok ),
+        read_term(S, T2, []),
+        ( T2 == end_of_file -> R = R0 ; R = second(R0, T2) )
+    ;   R = notatom
+    ).
+
+c19_loop_gc(S, Full, I, R) :-
+    get_char(S, C),
+    (   C == end_of_file -> ( Full == [] -> R = eq(I) ; R = short(I) )
+    ;   Full = [X|Rest], X == C -> I1 is I + 1, c19_loop_gc(S, Rest, I1, R)
+    ;   R = diff(I, C)
+    ).
+
+c19_loop_pgc(S, Full, I, R) :-
+    peek_char(S, P), get_char(S, C),
+    (   P \== C -> R = peekdiff(I, P, C)
+    ;   C == end_of_file -> ( Full == [] -> R = eq(I) ; R = short(I) )
+    ;   Full = [X|Rest], X == C -> I1 is I + 1, c19_loop_pgc(S, Rest, I1, R)
+    ;   R = diff(I, C)
+    ).
+
+c19_loop_gd(S, Full, I, R) :-
+    get_code(S, C),
+    (   C == -1 -> ( Full == [] -> R = eq(I) ; R = short(I) )
+    ;   Full = [X|Rest], char_code(X, C) -> I1 is I + 1, c19_loop_gd(S, Rest, I1, R)
+    ;   R = diff(I, C)
+    ).
+
+c19_loop_pgd(S, Full, I, R) :-
+    peek_code(S, P), get_code(S, C),
+    (   P \== C -> R = peekdiff(I, P, C)
+    ;   C == -1 -> ( Full == [] -> R = eq(I) ; R = short(I) )
+    ;   Full = [X|Rest], char_code(X, C) -> I1 is I + 1, c19_loop_pgd(S, Rest, I1, R)
+    ;   R = diff(I, C)
+    ).
+
+c19_loop_gn(S, K, Full, I, R) :-
+    get_n_chars(S, K, Cs),
+    (   Cs == [] -> ( Full == [] -> R = eq(I) ; R = short(I) )
+    ;   c19_prefix(Cs, Full, I, I1, Rest, Ok),
+        (   Ok == true -> c19_loop_gn(S, K, Rest, I1, R) ; R = Ok )
+    ).
+
+% exactly K characters with get_char, then stop (position is reported by the caller)
+c19_take(0, _, _, I, took(I)) :- !.
+c19_take(K, S, Full, I, R) :-
+    get_char(S, C),
+    (   Full = [X|Rest], X == C -> K1 is K - 1, I1 is I + 1, c19_take(K1, S, Rest, I1, R)
+    ;   R = diff(I, C)
+    ).
+
+% c19_prefix(Cs, Full, I0, I, Rest, Ok): Cs is a prefix of Full
+c19_prefix(Cs, Full, I0, I, Rest, Ok) :-
+    (   Cs == [] -> I = I0, Rest = Full, Ok = true
+    ;   Cs = [C|Cs1],
+        (   nonvar(Full), Full = [X|F1], X == C -> I1 is I0 + 1, c19_prefix(Cs1, F1, I1, I, Rest, Ok)
+        ;   I = I0, Rest = Full, Ok = diff(I0, C)
+        )
+    ).
